@@ -194,7 +194,7 @@ func (e *Eng) runOnce(loopMods map[int]map[string]bool) map[int]map[string]bool 
 			e.assume(st, tNot(tEq(pv.Ref, null)))
 			e.note("method receivers are assumed non-nil")
 		}
-		e.assume(st, wf(p.Type(), v))
+		e.assume(st, e.wf(p.Type(), v))
 		e.assumeValAllocated(fr, st, p.Type(), v)
 		fr.vals[p] = v
 		e.params = append(e.params, v)
@@ -620,7 +620,7 @@ func (e *Eng) loopHead(fr *Frame, li *loopInfo, st *State, loopMods map[int]map[
 					}
 				}
 			}
-			e.assume(st, wf(phi.Type(), v))
+			e.assume(st, e.wf(phi.Type(), v))
 			e.assumeValAllocated(fr, st, phi.Type(), v)
 			fr.vals[phi] = v
 			li.phiHead[phi] = v
